@@ -2,6 +2,7 @@
   C12 — length, emptiness, time range and last line agree with the contents.
 -/
 import BS.Proofs.Accessors
+import BS.Proofs.Extra
 
 namespace BS.Props.C12
 open BS BS.Impl
@@ -21,6 +22,20 @@ theorem range_is_first_last (hdr ihdr : Bytes) (dir : Dir) (s : Sess) (xs : List
 theorem size_formula (p : Nat) (xs : List Entry) (hp : ∀ x ∈ xs, x.pl.length = p) :
     (Spec.encode p xs).length = lineSize p * xs.length + metaSize p * (Spec.sections p xs).length :=
   encode_length p xs hp
+
+/-- **`last_line()` is the last accepted line** (timestamp and payload), read back from the
+file through the reader; on an empty series it is `NoData` (see `queries_total`). -/
+theorem last_line_is_last (hdr ihdr : Bytes) (dir : Dir) (s : Sess) (ys : List Entry) (l : Entry)
+    (hinv : SessInv hdr ihdr dir s (ys ++ [l])) :
+    lastLineOf (mainRegion dir s) s.d s.cb = .ok l :=
+  lastLine_spec hdr ihdr dir s ys l hinv
+
+/-- the accessors after a reopen or a torn-tail repair are those of the surviving history:
+the open re-establishes the invariant the theorems above assume (C04 / C05 through the API),
+so `len` after it is the number of completely written lines -/
+theorem len_after_reopen (hdr ihdr : Bytes) (dir : Dir) (s : Sess) (xs : List Entry) (k : Nat)
+    (hinv : SessInv hdr ihdr dir s (xs.take k)) : dataLenLines s.d = .ok (xs.take k).length :=
+  len_spec hdr ihdr dir s _ hinv
 
 example : firstLast [⟨3, []⟩, ⟨9, []⟩] = some (3, 9) := rfl
 
